@@ -399,7 +399,7 @@ theorem recurse0_spec (k : Buf → M (List Call × Buf)) (calls : Bytes → List
         rw [this]; exact l4
 
 theorem portIsEnabled_static (port : Option (Nat × PortT)) (b : Buf) (base : List PortT) (path : List Nat)
-    (rel : Bool) : portIsEnabled port b base path none rel = .ok (true, []) := by
+    (rel : Bool) (portRt : Option Obj) : portIsEnabled port b base path none rel portRt = .ok (true, []) := by
   cases port <;> rfl
 
 /-- `walk_ports` on a buffer that already holds a non-empty address: straight into the loop -/
